@@ -303,7 +303,17 @@ U16 = universe("U16", 4, [
 ], base=["(g c)", "(g (g c))", "(h (g c) d)", "(lam 1 (h (g c) (v 1)))"],
    note="an e-node that reaches its own class through a merged-away id")
 
-ALL = {"U16": U16, "U15": U15, "U14": U14, "U13": U13, "U12": U12, "U11": U11, "U10": U10, "U9": U9, "U8": U8, "U7": U7, "U1": U1, "U2": U2, "U3": U3, "U4": U4, "U5": U5, "U6": U6}
+# U17 "two orbits, one shrink": a 4-slot class with the symmetries (1 2) and (3 4) loses one slot of EACH orbit in a single union
+# (f4(1,2,3,4) = p(2,4)): both generators break at once, each re-assertion makes a further slot redundant (seeded C12m: the loop
+# over the broken generators stopped after the first nested shrink).  Three equations, every order.
+U17 = universe("U17", 5, [
+    (F4(1, 2, 3, 4), F4(2, 1, 3, 4)),
+    (F4(1, 2, 3, 4), F4(1, 2, 4, 3)),
+    (F4(1, 2, 3, 4), "(p 2 4)"),
+], base=["(g (f4 1 2 3 4))"],
+   note="two generators on different orbits broken by one shrink; 4 names per equation, pool 5")
+
+ALL = {"U17": U17, "U16": U16, "U15": U15, "U14": U14, "U13": U13, "U12": U12, "U11": U11, "U10": U10, "U9": U9, "U8": U8, "U7": U7, "U1": U1, "U2": U2, "U3": U3, "U4": U4, "U5": U5, "U6": U6}
 
 if __name__ == "__main__":
     out = os.path.dirname(os.path.abspath(__file__))
